@@ -28,10 +28,10 @@ func durText(d time.Duration, perr bool) string {
 func symDur() (d time.Duration, secs int64) {
 	s := vU32("dursecs")
 	f := vU32("durfrac")
-	vAssume(f < 1000000000)
 	if vParam("whole") == 1 {
 		vAssume(f == 0)
 	}
+	f %= 1000000000
 	d = time.Duration(int64(s)*1000000000 + int64(f))
 	if vParam("durneg") == 1 {
 		d = -d
@@ -126,9 +126,23 @@ func VH_C19_lemma() {
 		vAssert("C19.lemma.minutes", int64(d.Minutes()) == secs/60)
 	case 3:
 		vAssert("C19.lemma.seconds", int64(d.Seconds()) == secs)
+	// the remaining clauses of the contract (used when the float is not just truncated):
+	// q <= f < q+1, and f >= q+0.5 exactly when the remainder is at least half a unit
+	case 4:
+		lemmaRange("C19.lemma.seconds", d.Seconds(), secs, 2*frac >= 1000000000)
+	case 5:
+		lemmaRange("C19.lemma.minutes", d.Minutes(), secs/60, 2*(secs%60*1000000000+frac) >= 60000000000)
+	case 6:
+		lemmaRange("C19.lemma.hours", d.Hours(), secs/3600, 2*(secs%3600*1000000000+frac) >= 3600000000000)
 	}
 	vObserve("h", int64(d.Hours()))
 	vReach("end")
+}
+
+func lemmaRange(tag string, f float64, q int64, half bool) {
+	vAssert(tag+".at-least-quotient", f >= float64(q))
+	vAssert(tag+".below-next", f < float64(q+1))
+	vAssert(tag+".half-iff-remainder-half", (f >= float64(q)+0.5) == half)
 }
 
 // The formatter on durations WITH a sub-second rest, on the real float64 code (no contract):
@@ -147,12 +161,17 @@ func VH_C19_relative_frac() {
 	vReach("end")
 }
 
-// The formatter itself under the contract, every whole-second duration.
+// The formatter itself under the contract, every whole-second duration (whole=1) or every
+// nanosecond count (whole=0).
 func VH_C19_relative_fn() {
 	vFPContracts(true)
 	secs := int64(vU32("secs"))
 	vAssume(secs <= 100*366*86400)
-	d := time.Duration(secs * 1000000000)
+	frac := int64(0)
+	if vParam("whole") == 0 {
+		frac = int64(vU32("frac") % 1000000000)
+	}
+	d := time.Duration(secs*1000000000 + frac)
 	s := timeToSMPPTimeFormatRelative(d)
 	vObserve("s", s)
 	vKnown("KF-C19-relative-days-modulo-31", "C19.relative-fn.*", secs >= 31*86400)
